@@ -798,6 +798,98 @@ fn info() {
     );
 }
 
+// ---------------------------------------------------------------- intrinsic-level cross-check (x86)
+#[cfg(target_arch = "x86_64")]
+mod intrin {
+    use core::arch::x86_64::*;
+    unsafe fn v128(a: &[u64]) -> __m128i {
+        _mm_set_epi64x(a[1] as i64, a[0] as i64)
+    }
+    unsafe fn v256(a: &[u64]) -> __m256i {
+        _mm256_set_epi64x(a[3] as i64, a[2] as i64, a[1] as i64, a[0] as i64)
+    }
+    unsafe fn o128(v: __m128i) -> Vec<u64> {
+        let mut r = [0u64; 2];
+        _mm_storeu_si128(r.as_mut_ptr().cast(), v);
+        r.to_vec()
+    }
+    unsafe fn o256(v: __m256i) -> Vec<u64> {
+        let mut r = [0u64; 4];
+        _mm256_storeu_si256(r.as_mut_ptr().cast(), v);
+        r.to_vec()
+    }
+    /// one real intrinsic on the given operands (u64 words, low lane first)
+    #[target_feature(enable = "avx2")]
+    pub unsafe fn run(name: &str, a: &[u64]) -> Option<Vec<u64>> {
+        Some(match name {
+            "mm_add_epi64" => o128(_mm_add_epi64(v128(&a[0..2]), v128(&a[2..4]))),
+            "mm_mul_epu32" => o128(_mm_mul_epu32(v128(&a[0..2]), v128(&a[2..4]))),
+            "mm_andnot_si128" => o128(_mm_andnot_si128(v128(&a[0..2]), v128(&a[2..4]))),
+            "mm_srli_epi64_32" => o128(_mm_srli_epi64(v128(&a[0..2]), 32)),
+            "mm_srli_epi64_62" => o128(_mm_srli_epi64(v128(&a[0..2]), 62)),
+            "mm_srli_epi64_63" => o128(_mm_srli_epi64(v128(&a[0..2]), 63)),
+            "mm_shuffle_epi32_b1" => o128(_mm_shuffle_epi32(v128(&a[0..2]), 0xB1)),
+            "mm_shuffle_epi8" => o128(_mm_shuffle_epi8(v128(&a[0..2]), v128(&a[2..4]))),
+            "mm_insert_epi32_3" => o128(_mm_insert_epi32(v128(&a[0..2]), a[2] as i32, 3)),
+            "mm_slli_si128_8" => o128(_mm_slli_si128(v128(&a[0..2]), 8)),
+            "mm_sll_epi32" => o128(_mm_sll_epi32(v128(&a[0..2]), v128(&a[2..4]))),
+            "mm_srl_epi32" => o128(_mm_srl_epi32(v128(&a[0..2]), v128(&a[2..4]))),
+            "mm_cmpgt_epi32" => o128(_mm_cmpgt_epi32(v128(&a[0..2]), v128(&a[2..4]))),
+            "mm_set1_epi32" => o128(_mm_set1_epi32(a[0] as i32)),
+            "mm_cvtsi64_si128" => o128(_mm_cvtsi64_si128(a[0] as i64)),
+            "mm_maskload_epi32" => {
+                let mem = [a[0], a[1]];
+                o128(_mm_maskload_epi32(mem.as_ptr().cast(), v128(&a[2..4])))
+            }
+            "mm256_add_epi64" => o256(_mm256_add_epi64(v256(&a[0..4]), v256(&a[4..8]))),
+            "mm256_mul_epu32" => o256(_mm256_mul_epu32(v256(&a[0..4]), v256(&a[4..8]))),
+            "mm256_andnot_si256" => o256(_mm256_andnot_si256(v256(&a[0..4]), v256(&a[4..8]))),
+            "mm256_shuffle_epi8" => o256(_mm256_shuffle_epi8(v256(&a[0..4]), v256(&a[4..8]))),
+            "mm256_shuffle_epi32_b1" => o256(_mm256_shuffle_epi32(v256(&a[0..4]), 0xB1)),
+            "mm256_permutevar8x32_epi32" => o256(_mm256_permutevar8x32_epi32(v256(&a[0..4]), v256(&a[4..8]))),
+            "mm256_sllv_epi32" => o256(_mm256_sllv_epi32(v256(&a[0..4]), v256(&a[4..8]))),
+            "mm256_srlv_epi32" => o256(_mm256_srlv_epi32(v256(&a[0..4]), v256(&a[4..8]))),
+            "mm256_sub_epi32" => o256(_mm256_sub_epi32(v256(&a[0..4]), v256(&a[4..8]))),
+            "mm256_unpacklo_epi64" => o256(_mm256_unpacklo_epi64(v256(&a[0..4]), v256(&a[4..8]))),
+            "mm256_cmpeq_epi64" => o256(_mm256_cmpeq_epi64(v256(&a[0..4]), v256(&a[4..8]))),
+            "mm256_srli_epi64_32" => o256(_mm256_srli_epi64(v256(&a[0..4]), 32)),
+            "mm256_srli_epi64_62" => o256(_mm256_srli_epi64(v256(&a[0..4]), 62)),
+            "mm256_srli_epi64_63" => o256(_mm256_srli_epi64(v256(&a[0..4]), 63)),
+            "mm256_slli_epi64_63" => o256(_mm256_slli_epi64(v256(&a[0..4]), 63)),
+            "mm256_slli_si256_8" => o256(_mm256_slli_si256(v256(&a[0..4]), 8)),
+            "mm256_broadcastd_epi32" => o256(_mm256_broadcastd_epi32(v128(&a[0..2]))),
+            _ => return None,
+        })
+    }
+}
+
+fn intrin_mode(path: &str) {
+    let text = std::fs::read_to_string(path).expect("read");
+    let mut out = String::new();
+    for line in text.lines() {
+        let t: Vec<&str> = line.split_ascii_whitespace().collect();
+        if t.is_empty() {
+            continue;
+        }
+        let args: Vec<u64> = t[1..].iter().map(|x| u64::from_str_radix(x, 16).unwrap()).collect();
+        #[cfg(target_arch = "x86_64")]
+        let r = unsafe { intrin::run(t[0], &args) };
+        #[cfg(not(target_arch = "x86_64"))]
+        let r: Option<Vec<u64>> = { let _ = &args; None };
+        match r {
+            Some(v) => {
+                out.push('R');
+                for x in v {
+                    let _ = write!(out, " {:016x}", x);
+                }
+                out.push('\n');
+            }
+            None => out.push_str("UNKNOWN\n"),
+        }
+    }
+    print!("{}", out);
+}
+
 fn main() {
     let args: Vec<String> = std::env::args().collect();
     if args.len() < 2 {
@@ -806,6 +898,10 @@ fn main() {
     }
     if args[1] == "info" {
         info();
+        return;
+    }
+    if args[1] == "intrin" {
+        intrin_mode(&args[2]);
         return;
     }
     let script = std::fs::read_to_string(&args[2]).expect("read script");
